@@ -4,6 +4,7 @@
   `view_coreA`), and a work module with assigns declared late (`astOfA`, `buildLateWA_view`).
 -/
 import Spydr.Verilog.RoundTripAsgC
+import Spydr.Verilog.RoundTripAsgP
 set_option maxHeartbeats 1600000
 namespace Spydr.Verilog.Elab
 open Spydr.Verilog
@@ -295,15 +296,23 @@ theorem view_coreA (n : Text.WNet) (T : Text.WDef) (ports : List PDecl) (insts :
 structure WModPA where
   base : WModP
   asgs : List (Atom × Atom)
+  params : Params
 
-def WModPA.toA (m : WModPA) : WModA := ⟨m.base.toI, m.asgs.map (fun lr => (toX lr.1, toX lr.2))⟩
+def WModPA.toA (m : WModPA) : WModA := ⟨m.base.toI, m.asgs.map (fun lr => (toX lr.1, toX lr.2)), m.params⟩
+
+/-- the module parameters the writer prints (`#(parameter k = v, …)`): every parameter needs a value -/
+def astParams (T : Text.WDef) : Option Params :=
+  match T.params with
+  | none => some []
+  | some ps => ps.mapM (fun kv => kv.2.map (fun v => (kv.1, v)))
 
 /-- the syntax the writer prints for a definition with assigns: the instances that are no assignments, and the two sides of
     every assignment instance -/
 def astOfA (n : Text.WNet) (T : Text.WDef) : Option WModPA :=
-  match T.ports.mapM (astPort T), (ordI n T).mapM (astInst n T), (asgI n T).mapM (astAsg n T) with
-  | some ports, some insts, some as => some ⟨⟨T.name, T.attrs.getD [], ports, T.cables.reverse.map astWire, insts⟩, as⟩
-  | _, _, _ => none
+  match T.ports.mapM (astPort T), (ordI n T).mapM (astInst n T), (asgI n T).mapM (astAsg n T), astParams T with
+  | some ports, some insts, some as, some ps =>
+    some ⟨⟨T.name, T.attrs.getD [], ports, T.cables.reverse.map astWire, insts⟩, as, ps⟩
+  | _, _, _, _ => none
 
 /-- the assign fold only appends definitions, all of them of the assignment library -/
 theorem foldAsg_new : ∀ (as : List (XAtom × XAtom)) (d : Def) (ac : Nat) (known : List Def) (d' : Def) (ac' : Nat)
@@ -386,7 +395,7 @@ theorem buildLateWA_view (n : Text.WNet) (W : Text.WDef) (mW : WModPA) (L : Def)
     viewD D = viewTA n W ∧ D.lib = some "work" ∧ D.name = L.name ∧ LeafInv n ls' ∧
       (∃ new, ls' = ls.map (fun x => padOpsD x W.name ops) ++ new ∧ ∀ x ∈ new, StubOK x) ∧
       (∀ op ∈ ops, op.1 < L.ports.length) ∧ D.ports.map (·.name) = W.ports.map (·.name) ∧
-      D.ports.map (·.name) = L.ports.map (·.name) := by
+      D.ports.map (·.name) = L.ports.map (·.name) ∧ D.params = mergeParams [] mW.params := by
   unfold astOfA at hm
   cases hports : W.ports.mapM (astPort W) with
   | none => simp [hports] at hm
@@ -397,16 +406,19 @@ theorem buildLateWA_view (n : Text.WNet) (W : Text.WDef) (mW : WModPA) (L : Def)
       cases hasg : (asgI n W).mapM (astAsg n W) with
       | none => simp [hports, hinsts, hasg] at hm
       | some as =>
-        simp only [hports, hinsts, hasg, Option.some.injEq] at hm
+       cases hpar : astParams W with
+       | none => simp [hports, hinsts, hasg, hpar] at hm
+       | some pars =>
+        simp only [hports, hinsts, hasg, hpar, Option.some.injEq] at hm
         subst hm
         unfold buildLateWA WModPA.toA WModP.toI at hb
         generalize hws : W.cables.reverse.map astWire = wires at hb
         simp only at hb
         split at hb
         · rename_i hc
-          obtain ⟨hlib, hi, hnames, hnd, _⟩ := hc
+          obtain ⟨hlib, hi, hnames, hnd, _, hLpar⟩ := hc
           obtain ⟨hLc, _, hLa, hLp⟩ := hstub hlib
-          generalize hL1 : ({ L with lib := some "work" } : Def) = L1 at hb
+          generalize hL1 : entryDef L pars = L1 at hb
           cases h1 : foldLocal hdrStepL L1 nn (ports.map (·.name)) with
           | none => simp [h1] at hb
           | some r1 =>
@@ -450,17 +462,17 @@ theorem buildLateWA_view (n : Text.WNet) (W : Text.WDef) (mW : WModPA) (L : Def)
                       obtain ⟨newA, enA, hnewA⟩ := foldAsg_new _ d3 0 _ d3a aca lsa ha
                       obtain ⟨new, en, hnew⟩ := foldInst_new _ d3a _ d4 ls4 h4
                       obtain ⟨z4, z6⟩ := foldAsg_frame _ d3 0 _ d3a aca lsa ha
-                      have hlib4 : d4.lib = some "work" := by rw [foldInst_lib _ d3a _ d4 ls4 h4, z6, f7, ← hL1]
+                      have hlib4 : d4.lib = some "work" := by rw [foldInst_lib _ d3a _ d4 ls4 h4, z6, f7, ← hL1]; rfl
                       have hname4 : d4.name = L.name := by
                         have hn : d4.name = d3a.name := foldInst_name _ d3a _ d4 ls4 h4
-                        rw [hn, z4, f8, ← hL1]
+                        rw [hn, z4, f8, ← hL1]; rfl
                       have hp4 : (withAttrs (W.attrs.getD []) d4).ports = d4.ports := by unfold withAttrs; split <;> rfl
                       have hnm4 : (withAttrs (W.attrs.getD []) d4).ports.map (·.name) = (ports.map (·.name)).map some := by
                         rw [hp4, v3]
                         have := congrArg (List.map (fun (x : PV) => x.1)) f1
                         simp only [List.map_map, pv, declV, Function.comp_def] at this
                         rw [this, List.map_map]; rfl
-                      refine ⟨v1, ?_, ?_, v2, ⟨newA ++ new, by rw [en, enA, List.append_assoc], ?_⟩, ?_, ?_, by rw [hnm4, hnames]⟩
+                      refine ⟨v1, ?_, ?_, v2, ⟨newA ++ new, by rw [en, enA, List.append_assoc], ?_⟩, ?_, ?_, by rw [hnm4, hnames], ?_⟩
                       · unfold withAttrs; split <;> simp [hlib4]
                       · unfold withAttrs; split <;> simp [hname4]
                       · intro x hx
@@ -472,7 +484,7 @@ theorem buildLateWA_view (n : Text.WNet) (W : Text.WDef) (mW : WModPA) (L : Def)
                           have := foldLocal_pres (fun d => d.ports.map (·.name)) hdrStepL hdrStepL_names _ _ _ _ _ h1
                           have := congrArg List.length this
                           simp only [List.length_map] at this
-                          rw [this, ← hL1]
+                          rw [this, ← hL1]; rfl
                         intro op hop
                         rw [← hlen]; exact this op hop
                       · rw [hp4, v3]
@@ -486,6 +498,12 @@ theorem buildLateWA_view (n : Text.WNet) (W : Text.WDef) (mW : WModPA) (L : Def)
                         simp only [List.getElem_map]
                         obtain ⟨nm, c, dir, hn, _, _, e⟩ := astPort_spec W _ _ (hpidx k g2 g1)
                         rw [e, hn]
+                      · rw [withAttrs_params, foldInst_params _ d3a _ d4 ls4 h4, foldAsg_params _ d3 0 _ d3a aca lsa ha,
+                          foldLocal_pres (·.params) wireStep wireStep_params _ _ _ _ _ h3,
+                          foldDeclA_params ports d1 n1 d2 n2 ops2 h2,
+                          foldLocal_pres (·.params) hdrStepL hdrStepL_params _ _ _ _ _ h1, ← hL1]
+                        show mergeParams L.params pars = _
+                        rw [hLpar]
                 · cases hb
         · cases hb
 end Spydr.Verilog.Elab
